@@ -24,12 +24,13 @@ LEVEL_NOTE = ('Partial: np.fft.fft2/fftshift/ifftshift and np.round enter throug
               'anisotropic dx*du is excluded by hypothesis (known finding KF-C09-fft-anisotropic-wavelength). '
               'Trusted: Lean kernel, py2lean subset semantics, generator coverage.')
 TECHNIQUE = 'Lean 4 proof (finite-sum reindexing, omega) over hand model with differential correspondence at Float'
-GEN = ['Extent', 'FieldIdx']
+GEN = ['Extent', 'FieldIdx', 'FftScratch']
 OPS = ['C02', 'C09']
 RULE = ('cases: pupils 1..6 x 1..6 (even/odd/non-square, off-centre, segmented) no larger than the grid; FFT grids 2..12 of both '
         'parities chosen through du (1/alpha within +-0.35 of the target, incl. non-integer); oversample 1..4; shape None/int/pair '
         'accepted and too large; scratch none / exact / larger / too small, zero / random-dirty / left from a previous call; '
-        'tilted wavefronts; a few anisotropic dx*du cases (known-finding class). distinct = (pupil, grid, os, shape, scratch, class); '
+        'tilted wavefronts; one case in five has anisotropic dx*du (non-square grids, wider and taller, mostly with dirty/re-used scratch: '
+        'scratch = no scratch, exact scratch_shape and refusals are checked there too; only FFT vs DFT is the known-finding class). distinct = (pupil, grid, os, shape, scratch, class); '
         'non-trivial = odd grid or scratch or explicit shape or refusal')
 TRUSTED = ['np.fft.fft2(norm="ortho") = unitary DFT with origin at index 0; np.fft.fftshift/ifftshift = rotations by +-floor(n/2); '
            'np.round = round-half-even; lentil.field.insert as modelled by insertArr (C06)']
@@ -50,7 +51,7 @@ def generate(rng, tier):
         m, nn = p['shape']
         os_ = int(rng.integers(1, 5))
         smax = 12 if tier != 'thorough' else 16
-        cls = 'aniso' if k % 25 == 24 else 'iso'
+        cls = 'aniso' if k % 5 == 4 else 'iso'
         if rng.integers(0, 2): dx = [1 / 64, 1 / 64]; scalar_dx = True
         else: dx = [float(rng.choice([1 / 64, 1 / 32])), float(rng.choice([1 / 64, 1 / 32]))]; scalar_dx = dx[0] == dx[1]
         S = int(rng.integers(max(m, nn, 2), smax + 1))
@@ -76,6 +77,12 @@ def generate(rng, tier):
                        'pad': [int(rng.integers(0, 4)), int(rng.integers(0, 4))], 'seed': int(rng.integers(0, 2 ** 31))}
             if scratch['size'] == 'larger' and scratch['pad'] == [0, 0]: scratch['pad'] = [1, 2]
             if scratch['size'] == 'small': scratch['pad'] = [-1, 0] if rng.integers(0, 2) else [0, -1]
+        if cls == 'aniso' and rng.integers(0, 10) < 7:
+            # non-square grids (wider than tall and taller than wide) with a dirty / re-used buffer, exact or larger
+            scratch = {'size': 'exact' if rng.integers(0, 2) else 'larger', 'content': 'dirty' if rng.integers(0, 2) else 'prev',
+                       'pad': [0, 0], 'seed': int(rng.integers(0, 2 ** 31))}
+            if scratch['size'] == 'larger': scratch['pad'] = [int(rng.integers(0, 4)), int(rng.integers(1, 4))]
+            if shape is not None and rng.integers(0, 2): shape = None
         tilt = None
         if rng.integers(0, 12) == 0: tilt = [float(rng.uniform(-1e-6, 1e-6)), float(rng.uniform(-1e-6, 1e-6))]
         out.append({'kind': 'fft', 'class': cls, 'pupil': p, 'dx': dx, 'scalar_dx': bool(scalar_dx), 'du': du, 'scalar_du': scalar_du,
